@@ -71,3 +71,8 @@ Proof.
     pose proof (wf_r _ W) as [HL _].
     apply getreg_setreg_same; try assumption; unfold word; lia.
 Qed.
+
+Lemma call_any_registers s a b : wf_vm s -> reg_ix a -> reg_ix b ->
+  exec_CALL [PI a; PI b] s = Ok (tt, swap_gen a b (upd_ers (ers s ++ [(getreg s b, pc s + 1)]) s)) /\
+  pc (swap_gen a b (upd_ers (ers s ++ [(getreg s b, pc s + 1)]) s)) = getreg s b.
+Proof. intros W Ha Hb. split; [now apply exec_CALL_gen | now rewrite pc_swap_gen]. Qed.
